@@ -187,7 +187,12 @@ pub fn run(tier: Tier) -> i32 {
     });
     rep.part(json!({"part":"encap_frag packets","pdu_lengths":"0..=12","positions":"all","buffers":"0..=p+10","frag_ids":"all 256 on a subset of cells"}));
     // extension chains
-    let ch = chains(if tier.thorough() { 3 } else { 2 });
+    let mut ch = chains(if tier.thorough() { 3 } else { 2 });
+    for e in crate::props::c06::boundary_exts() {
+        ch.push(vec![e.clone()]);
+        ch.push(vec![e.clone(), (0x0303, vec![1, 2, 3, 4])]);
+        ch.push(vec![(0x0202, vec![5, 6]), e.clone()]);
+    }
     ch.par_iter().enumerate().for_each(|(ci, c)| {
         let mut acc = Acc::default();
         let pt = pt_for_chain(c);
